@@ -177,18 +177,43 @@ func c12CheckBeta(c c12BetaCase) (v vcase.Verdict) {
 		}
 	}
 	if c.Mode == "nu" && c.T > 0 {
-		// The t CDF's use: F_ν(t) = 1 − ½·I_{ν/(ν+t²)}(ν/2, ½).
-		f := 1 - 0.5*vals[0]
-		if ref, ok := refstat.TCDF(c.Nu, c.T); ok {
-			if !c12TAgree(&v, c.Nu, c.T, f, ref, 1e-9) {
-				v.Failf("ν=%v t=%v: 1 − ½·I_%v(ν/2,½) = %.17g, integral of the t density %.17g", c.Nu, c.T, xs[0], f, ref)
-				return
+		// The two forms in which the t CDF uses the function:
+		//   F_ν(t) = 1 − ½·I_q(ν/2, ½),  q = ν/(ν+t²)   and
+		//   F_ν(t) = ½ + ½·I_r(½, ν/2),  r = t²/(ν+t²).
+		// q as formed in float64 no longer determines t when t² ≪ ν (that
+		// loss belongs to the caller, not to the beta function), so the first
+		// form is compared at the argument q actually stands for,
+		// t' = √(ν(1−q)/q); r is formed without cancellation.
+		q := xs[0]
+		if q > 0 {
+			tEff := math.Sqrt(c.Nu * (1 - q) / q)
+			if ref, ok := refstat.TCDF(c.Nu, tEff); ok {
+				if f := 1 - 0.5*vals[0]; math.Abs(f-ref) > 1e-9 {
+					v.Failf("ν=%v: 1 − ½·I_%v(ν/2,½) = %.17g, integral of the t density up to %v is %.17g", c.Nu, q, f, tEff, ref)
+					return
+				}
 			}
 		}
-		// mirrored parameters (the form the symmetry transform produces)
-		if J := mathBetaInc(1-xs[0], 0.5, c.Nu/2); !(J >= 0 && J <= 1) {
-			v.Failf("I_%v(½,%v) = %v outside [0,1]", 1-xs[0], c.Nu/2, J)
-			return
+		if t2 := c.T * c.T; !math.IsInf(t2, 0) && t2 > 0 {
+			r := t2 / (c.Nu + t2) // loses t when t² ≫ ν: compare at √(ν·r/(1−r))
+			J := mathBetaInc(r, 0.5, c.Nu/2)
+			v.Sub++
+			if !(J >= 0 && J <= 1) {
+				v.Failf("I_%v(½,%v) = %v outside [0,1]", r, c.Nu/2, J)
+				return
+			}
+			if r < 1 {
+				tEff := math.Sqrt(c.Nu * r / (1 - r))
+				if r < 0.5 {
+					tEff = c.T // 1−r is not exact here, but r determines t to ε
+				}
+				if ref, ok := refstat.TCDF(c.Nu, tEff); ok {
+					if f := 0.5 + 0.5*J; math.Abs(f-ref) > 1e-9 {
+						v.Failf("ν=%v: ½ + ½·I_%v(½,ν/2) = %.17g, integral of the t density up to %v is %.17g", c.Nu, r, f, tEff, ref)
+						return
+					}
+				}
+			}
 		}
 	}
 	if o := mathBetaInc(c.Out, a, b); !math.IsNaN(o) {
